@@ -20,7 +20,7 @@ Oracles (the property statement itself on what the real programs print / return)
   * fault injection (listing error in the main process, MD / reference mismatch inside a worker, a haplotype record
     with an ALT of another length for the calling programs) at chosen positions, cores 1 and 3: exit status != 0, no
     record for the failing locus, no hang; faults of the processes themselves: a worker killed with SIGKILL while it
-    calls a locus, stdout that cannot be written (/dev/full), a reader that goes away after the first record;
+    calls a locus, stdout that cannot be written (/dev/full), a reader that goes away after the header;
   * records are keyed by CHROM:POS-END:ID: targets on two contigs, overlapping / nested / repeated targets (a target
     listed k times gives k identical records), BED3 files; sampler / input options otherwise left at their defaults
     (`--mcmc-temperatures` list and per-sample file, `--mcmc-chains`, `--mcmc-llk-cache-threshold 0 / -1`,
@@ -89,7 +89,8 @@ RULE = ("cases: (n,k) pairs for array_split; forced schedules of the real worker
 MCMC = ["--mcmc-steps", "300", "--mcmc-burn", "100"]
 DROP = ("##fileDate", "##commandline")
 TIMEOUT = 240
-KILL_TIMEOUT = 45          # a 7-locus run takes 6-8 s; a run whose worker was killed never ends on the unchanged tree
+KILL_TIMEOUT = 60          # a 7-locus run takes 6-8 s; a run whose worker was killed never ends on the unchanged tree
+KILL_QUIET = 12            # ... and after the header its records follow within a second or two: silence for this long = hung
 SIG_KILL_HANG = "C08/fault/worker-killed-hang"
 SIG_PIPE_ZERO = "C08/fault/closed-pipe-exit-zero"
 
@@ -277,6 +278,20 @@ class _FakeJob:
         self.exc = None
 
     def get(self):
+        if self.owner == "r":
+            # collecting the writer's result after KILL is not a protocol move of its own (it is what pool.join()
+            # already did): block, parked, until the writer has left its loop
+            with self.ts.cv:
+                self.ts.parked["m"] = True
+                self.ts.cv.notify_all()
+            while not self.done.wait(timeout=0.02):
+                if self.ts.abort:
+                    raise _Abort("turnstile: replay over while waiting for the writer")
+            with self.ts.cv:
+                self.ts.parked["m"] = False
+            if self.exc is not None:
+                raise self.exc
+            return
         # the main process blocks here: one model move (`join` / `raise`) per call
         self.ts.wait_turn("m")
         if not self.done.is_set():
@@ -448,6 +463,8 @@ def replay_real_protocol(n, k, fails, schedule):
         if not ts.settle():
             raise RuntimeError("turnstile: the actors did not settle after the schedule")
         writer_done = "r" in ts.ended
+        if writer_done:
+            mt.join(timeout=10)      # the writer has seen KILL: the main process is past every move and returns
         exit_kind = main_state["exit"]
         lines = [x for x in written if x != ""]
         qlen = len(fake.queue.items)
@@ -1193,7 +1210,7 @@ def check_cli(chk, drv, r, tier, work, jobs):
 
 def process_fault_jobs(r, tier, ds, acommon, jobs, n_header):
     """a worker process killed from outside (SIGKILL, what the OOM killer does) while it calls one locus; stdout that
-    cannot be written (ENOSPC from the first flush); a reader that goes away after the first record (EPIPE in the writer).
+    cannot be written (ENOSPC from the first flush); a reader that goes away after the header (EPIPE in the writer process).
     In every case the run must end, and end with a non-zero status."""
     n = len(ds.loci)
     ids = [lkey(l) for l in ds.loci]
@@ -1204,13 +1221,16 @@ def process_fault_jobs(r, tier, ds, acommon, jobs, n_header):
         jobs.submit(f"fault killed pos={pos} cores={cores}", base_argv + ["--cores", str(cores)],
                     {"fault": "killed", "pos": pos, "cores": cores, "ids": ids, "failing": lkey(F), "n_samples": len(ds.samples),
                      "tag": {"prog": "assemble", "fault": "killed", "pos": pos, "cores": cores, "n_loci": n}},
-                    timeout=KILL_TIMEOUT, env=hash_env(r), kill_locus=F.name)
-    for mode, what in (("devfull", "devfull"), ("closed-pipe", "closed-pipe")):
-        for cores in (1, 3):
+                    timeout=KILL_TIMEOUT, quiet=KILL_QUIET, env=hash_env(r), kill_locus=F.name)
+    # closed pipe: the reader (`head -n <header lines>`) leaves as soon as it has the header, which the multi-core main process
+    # flushes before it even creates the pool: every record write of the writer process comes later and fails with EPIPE.
+    # (Single-core runs buffer header and records together: whether a write fails there depends on sizes and timing.)
+    for what, core_list in (("devfull", (1, 3)), ("closed-pipe", (3,) if tier != "thorough" else (2, 3, 5))):
+        for cores in core_list:
             jobs.submit(f"fault {what} cores={cores}", base_argv + ["--cores", str(cores)],
                         {"fault": what, "pos": None, "cores": cores, "ids": ids, "failing": None, "n_samples": len(ds.samples),
                          "tag": {"prog": "assemble", "fault": what, "cores": cores, "n_loci": n}},
-                        env=hash_env(r), mode=mode, keep_lines=n_header + 1)
+                        env=hash_env(r), mode=what, keep_lines=n_header)
 
 
 def fault_jobs(r, tier, work, ds, acommon, common, jobs, raw_hdr, recs0, ped):
@@ -1311,7 +1331,7 @@ def run_subprocesses(chk, drv, results, drv_reqs):
         if code == 124:
             if exp.get("fault") == "killed":
                 chk.violation(f"{label}: a worker process is killed (SIGKILL) while calling one locus and the program never exits "
-                              f"(no exit within {KILL_TIMEOUT} s; the main process waits for a result that cannot arrive)",
+                              f"({err.split(chr(10))[0]}; the main process waits for a result that cannot arrive)",
                               {**tag, "argv": argv, "killed_at": exp["failing"], "records_written": order}, SIG_KILL_HANG)
             else:
                 chk.violation(f"{label}: no exit within {TIMEOUT} s", {**tag, "argv": argv}, "C08/multicore/hang")
@@ -1340,8 +1360,8 @@ def run_subprocesses(chk, drv, results, drv_reqs):
                     chk.violation(f"{label}: stdout is /dev/full (every write fails with ENOSPC) but the exit status is 0",
                                   case, "C08/fault/devfull-exit-zero")
                 else:
-                    chk.violation(f"{label}: the reader of stdout goes away after the first record (the writer gets EPIPE), the "
-                                  f"remaining {len(exp['ids']) - len(order)} records are lost, and the exit status is 0",
+                    chk.violation(f"{label}: the reader of stdout goes away after the header (every write of the writer process fails "
+                                  f"with EPIPE), all {len(exp['ids'])} records are lost, and the exit status is 0",
                                   case, SIG_PIPE_ZERO)
             continue
         # ---- a failing locus
@@ -1408,7 +1428,7 @@ def run(tier, replay=None):
     chk.prove()
     drv = C.Driver(EXE)
     work = tempfile.mkdtemp(prefix="verif-c08-")
-    jobs = W.Jobs(workers=10)
+    jobs = W.Jobs(workers=14)
     phase = chk.extra.setdefault("phase_wall_s", {})
     try:
         # the command-line part comes first: its real-process runs are started as they are defined and go on in the
